@@ -10,7 +10,9 @@
   * outside any lock: `useElem` — a thread that has obtained a reference to the element of slot `sl`
     (it `knows` the slot: it read it filled, installed it, or received a handle from a thread that
     knew it) dereferences the slot's content;
-  * the teardown writes every slot.
+  * the per-node data cells are further locations that are only touched under their own lock, read (`dataRd`) or
+    written any number of times (`dataWr`);
+  * the teardown writes every slot (and frees every block, data cells included).
   An access races with an earlier conflicting access of another thread that is not ordered before it.
 -/
 import CstModel.Model.MemModel
@@ -74,6 +76,11 @@ inductive Act where
   | loseSlot (sl : Nat)
   /-- dereference of the element of a slot through a reference obtained earlier -/
   | useElem (sl : Nat)
+  /-- the per-node data cell, a location that is only ever touched inside its lock (it lives *inside* its `RwLock`):
+      `get_data` under the shared lock; locations of data cells are indices whose slot flag stays `false` -/
+  | dataRd (loc : Nat)
+  /-- `set_data` / `try_set_data` / `clear_data` under the exclusive lock: any number of writes -/
+  | dataWr (loc : Nat)
   deriving Repr
 
 def step (O : Ords) (s : Sys) (t : Nat) (a : Act) : Option Sys :=
@@ -104,6 +111,14 @@ def step (O : Ords) (s : Sys) (t : Nat) (a : Act) : Option Sys :=
     | .loseSlot sl =>
       match s.slots[sl]? with
       | some true => if n ≥ 1 then some (locked s t sl false false true) else none
+      | _ => none
+    | .dataRd sl =>
+      match s.slots[sl]? with
+      | some false => if n ≥ 1 then some (locked s t sl false false false) else none
+      | _ => none
+    | .dataWr sl =>
+      match s.slots[sl]? with
+      | some false => if n ≥ 1 then some (locked s t sl true false false) else none
       | _ => none
     | .useElem sl =>
       if n ≥ 1 ∧ (s.knows t).contains sl then
